@@ -294,7 +294,14 @@ func (w *Witness) Update(pk *gabikeys.PublicKey, update *Update) error {
 	defer Logger.Tracef("revocation.Witness.Update() done")
 
 	newAcc, err := update.Verify(pk)
-	ourAcc := w.SignedAccumulator.Accumulator
+	if err != nil {
+		return err
+	}
+	// a witness that was stored and loaded again carries no cached accumulator: verify and unmarshal it first
+	if w.SignedAccumulator == nil {
+		return errors.New("witness has no signed accumulator")
+	}
+	ourAcc, err := w.SignedAccumulator.UnmarshalVerify(pk)
 	if err != nil {
 		return err
 	}
